@@ -842,6 +842,13 @@ theorem merge_lists_inserts {α : Type} [DecidableEq α] (l1 : List α) (x : α)
 example : mergeLists [1, 4, 10] [0, 1, 2, 4, 5] = ([0, 1, 2, 4, 10, 5], [1, 3, 4], [0, 1, 2, 3, 5]) := by
   decide
 
+/-- non-vacuity of `merge_lists_inserts`: the new item 2 stands in front of its successor 4, the new
+last item 5 is last -/
+example : (∃ C D, (mergeLists [1, 4, 10] ([0, 1] ++ 2 :: 4 :: [5])).1 = C ++ 2 :: 4 :: D) ∧
+    (∃ C, (mergeLists [1, 4, 10] ([0, 1, 2, 4] ++ [5])).1 = C ++ [5]) :=
+  ⟨(merge_lists_inserts [1, 4, 10] 2 (by decide)).1 [0, 1] [5] 4 (by decide),
+   (merge_lists_inserts [1, 4, 10] 5 (by decide)).2 [0, 1, 2, 4] (by decide)⟩
+
 /-! ## mkusetmask / mksetpv with `+` combinations -/
 
 theorem inSet_or (w a b : Nat) : inSet w (a ||| b) = (inSet w a || inSet w b) := by
@@ -976,6 +983,15 @@ theorem make_uset_coords_partial (rows : List (Nat × Nat)) (hc : Canon rows) (n
 example : Canon [(1, 123456), (2, 0), (7, 1), (7, 2), (7, 3), (7, 4), (7, 5), (7, 6)] :=
   Canon.grid 1 (Canon.spoint 2 (Canon.perdof 7 Canon.nil))
 
+/-- the docstring example of `make_uset`: grid 1 in the b-set at (1, 2, 3), scalar point 2 in the q-set -/
+example : makeUsetXyz (.rows [(1, 123456), (2, 0)]) [2097154, 4194304] [(1, 2, 3), (0, 0, 0)] =
+    .ok [((1, 1, 2097154), some (1, 2, 3)), ((1, 2, 2097154), some (0, 1, 0)),
+         ((1, 3, 2097154), some (0, 0, 0)), ((1, 4, 2097154), some (1, 0, 0)),
+         ((1, 5, 2097154), some (0, 1, 0)), ((1, 6, 2097154), some (0, 0, 1)),
+         ((2, 0, 4194304), some (0, 0, 0))] := by
+  rw [make_uset_coords_partial _ (Canon.grid 1 (Canon.spoint 2 Canon.nil)) _ _ rfl rfl]
+  simp [wantedTbl, digits_all, digits_zero, basicRows]
+
 /-! ## upasetpv / upqsetpv -/
 
 /-- `upasetpv(nas, seup)`: the downstream SE is read from the first `selist` row of `seup`; the
@@ -1030,6 +1046,24 @@ theorem upasetpv_spec (nas : Nas) (seup : Nat) (pv : List Nat) (h : upasetpv nas
               · exact ⟨dnids, Or.inl rfl, fun i => by rw [mem_positions, hS, idMask_get]⟩
               · exact ⟨_, Or.inr ⟨upids, hu, rfl⟩, fun i => by rw [mem_positions, hS, idMask_get]⟩
 
+/-- a small dictionary: SE 100 is upstream of the residual 0; its boundary (grid 3 renumbered 7 on
+the CSUPER entry, scalar point 11 in the q-set) sits behind an interior scalar point of SE 0. -/
+def exampleNas : Nas where
+  selist := [(100, 0), (0, 0)]
+  uset := [(0, [(5, 0, 4), (7, 1, 2), (7, 2, 2), (7, 3, 2), (7, 4, 2), (7, 5, 2), (7, 6, 2), (11, 0, 2)]),
+           (100, [(3, 1, 2), (3, 2, 2), (3, 3, 2), (3, 4, 2), (3, 5, 2), (3, 6, 2), (11, 0, 4194304),
+                  (20, 0, 4)])]
+  dnids := [(100, [7, 11])]
+  maps := [(100, []), (0, [])]
+  upids := []
+
+example : upasetpv exampleNas 100 = .ok [1, 2, 3, 4, 5, 6, 7] ∧
+    upasetpv exampleNas 5 = .error .value ∧ upasetpv exampleNas 0 = .error .key := by decide
+
+example : upqsetpv (mask .a) (mask .q) (mask .p) exampleNas 3 0 =
+      .ok [false, false, false, false, false, false, false, true] ∧
+    upqsetpv (mask .a) (mask .q) (mask .p) exampleNas 3 100 = .error .value := by decide
+
 /-- `pv[idx] = vals` for distinct places inside the vector: place `idx[k]` holds `vals[k]`, every
 other place is unchanged, the length is kept. -/
 theorem scatter_spec (pv : List Bool) (idx : List Nat) (vals : List Bool) (hnd : idx.Nodup)
@@ -1045,14 +1079,16 @@ theorem upqsetpv_length (amask qmask pmask : Nat) (nas : Nas) (fuel sedn : Nat) 
     ∃ usetdn, lookupD nas.uset sedn = .ok usetdn ∧ out.length = usetdn.length :=
   upqsetpv_length' h
 
-/-- `upqsetpv` for one upstream SE that has no upstream SEs of its own and no reordering map
+/-- `upqsetpv` for one upstream SE (besides the row of `selist` that names `sedn` itself, which is
+skipped) that has no upstream SEs of its own and no reordering map
 (`qup` = its q-set flags over its a-set, or its a-set scalar points when it has no q-set; `m` =
 the boundary rows in the downstream table, as in `upasetpv_spec`): the boundary rows receive, in
 table order, the flags `qup`; every other row is `False`; nothing is flagged when `qup` is all
 `False`. -/
 theorem upqsetpv_one_upstream (amask qmask pmask : Nat) (nas : Nas) (fuel sedn seup : Nat)
     (usetdn usetup : List Row) (dnids : List Nat) (qup m : List Bool)
-    (hups : (nas.selist.filter fun r => r.2 = sedn).map (·.1) = [seup]) (hne : seup ≠ sedn)
+    (hups : ((nas.selist.filter fun r => r.2 = sedn).map (·.1)).filter (fun s => decide (s ≠ sedn))
+      = [seup]) (hne : seup ≠ sedn)
     (hleaf : nas.selist.any (fun r => r.2 = seup) = false)
     (h1 : lookupD nas.uset sedn = .ok usetdn) (h2 : lookupD nas.uset seup = .ok usetup)
     (h3 : lookupD nas.dnids seup = .ok dnids) (h4 : lookupD nas.maps seup = .ok [])
@@ -1064,6 +1100,17 @@ theorem upqsetpv_one_upstream (amask qmask pmask : Nat) (nas : Nas) (fuel sedn s
         List.Forall₂ (fun i v => out[i]? = some v) (positions m) qup ∧
         ∀ j, j ∉ positions m → j < usetdn.length → out[j]? = some false) :=
   upqsetpv_one hups hne hleaf h1 h2 h3 h4 h5 h6 h7 hm
+
+/-- non-vacuity of `upqsetpv_one_upstream`: its hypotheses hold for `exampleNas` -/
+example : ∃ out, upqsetpv (mask .a) (mask .q) (mask .p) exampleNas 3 0 = .ok out ∧ out.length = 8 :=
+  let ⟨out, h, hl, _⟩ := upqsetpv_one_upstream (mask .a) (mask .q) (mask .p) exampleNas 2 0 100
+    [(5, 0, 4), (7, 1, 2), (7, 2, 2), (7, 3, 2), (7, 4, 2), (7, 5, 2), (7, 6, 2), (11, 0, 2)]
+    [(3, 1, 2), (3, 2, 2), (3, 3, 2), (3, 4, 2), (3, 5, 2), (3, 6, 2), (11, 0, 4194304), (20, 0, 4)]
+    [7, 11] [false, false, false, false, false, false, true]
+    [false, true, true, true, true, true, true, true]
+    (by decide) (by decide) (by decide) (by decide) (by decide) (by decide) (by decide) (by decide)
+    (by decide) (by decide) (by decide)
+  ⟨out, h, hl⟩
 
 /-- the flags written for an upstream SE: its q-set DOF among its a-set DOF; when it has no
 q-set DOF at all, its a-set scalar points (every DOF of the table being in the p-set). -/
